@@ -36,6 +36,35 @@ pub struct Case {
     /// redirect needs the head only and must not wait for the rest of that body
     #[serde(default)]
     pub redirect_first: Option<(u8, u16)>,
+    /// the body is consumed with `write_to` into a writer that notes what it was given before the transport ran dry
+    #[serde(default)]
+    pub via_write_to: bool,
+    /// when present the response is only a head with a status that never has a body (index into BODILESS), followed by the
+    /// server pause: send() and the first read must return without waiting for anything further
+    #[serde(default)]
+    pub bodiless: Option<u8>,
+}
+
+pub const BODILESS: &[u16] = &[100, 101, 102, 103, 199, 204, 304];
+
+struct NotingWriter {
+    log: std::sync::Arc<std::sync::Mutex<crate::transport::Log>>,
+    before_pause: Vec<u8>,
+    after_pause: usize,
+}
+
+impl std::io::Write for NotingWriter {
+    fn write(&mut self, b: &[u8]) -> std::io::Result<usize> {
+        if self.log.lock().unwrap().would_block == 0 {
+            self.before_pause.extend_from_slice(b);
+        } else {
+            self.after_pause += b.len();
+        }
+        Ok(b.len())
+    }
+    fn flush(&mut self) -> std::io::Result<()> {
+        Ok(())
+    }
 }
 
 pub struct C19;
@@ -98,9 +127,9 @@ non-trivial = pause inside the body and entitled bytes non-empty";
                 1 => Just(PauseAt::AfterFrame),
             ],
             read_sizes(),
-            prop_oneof![4 => Just(None), 1 => (0u8..3, any::<u16>()).prop_map(Some)],
+            (prop_oneof![4 => Just(None), 1 => (0u8..3, any::<u16>()).prop_map(Some)], prop::bool::weighted(0.2), prop_oneof![15 => Just(None), 1 => (0u8..BODILESS.len() as u8).prop_map(Some)]),
         )
-            .prop_map(|(payload, framing, hdr_style, seg, pause, reads, redirect_first)| Case {
+            .prop_map(|(payload, framing, hdr_style, seg, pause, reads, (redirect_first, via_write_to, bodiless))| Case {
                 payload,
                 framing,
                 hdr_style,
@@ -108,11 +137,35 @@ non-trivial = pause inside the body and entitled bytes non-empty";
                 pause,
                 reads,
                 redirect_first,
+                via_write_to,
+                bodiless,
             })
             .boxed()
     }
 
     fn check(case: &Case, ctx: &mut Ctx) -> Outcome {
+        if let Some(b) = case.bodiless {
+            let status = BODILESS[b as usize % BODILESS.len()];
+            let head = format!("HTTP/1.1 {status} X\r\nX-Pad: 1\r\n\r\n").into_bytes();
+            let structural = vec![head.len()];
+            let mut events = seg_upto(&case.seg, &head, &structural, head.len());
+            events.push(Ev::Pause);
+            let (res, net, _guard) = get_scripted(events, |rb| rb);
+            let wb = || net.lock().unwrap().dials[0].1.lock().unwrap().would_block;
+            ctx.label("bodiless-status-then-pause");
+            let mut resp = match res {
+                Ok(r) => r,
+                Err(e) => return Outcome::fail("C19:send-blocked", format!("send() did not return Ok although the complete head of a {status} response had arrived (reads that reached the pause: {}): {e:?}", wb())),
+            };
+            if wb() != 0 || resp.status().as_u16() != status {
+                return Outcome::fail("C19:send-read-past-head", format!("status {} returned after waiting for more bytes behind the head of a {status} response", resp.status()));
+            }
+            let mut b = [0u8; 16];
+            return match resp.read(&mut b) {
+                Ok(0) if wb() == 0 => Outcome::Pass,
+                other => Outcome::fail("C19:bodiless:read-waited", format!("first read on a {status} response: {other:?}, reads that reached the pause: {}", wb())),
+            };
+        }
         let payload = case.payload.bytes();
         let built = build_response(200, &[], &case.framing, case.hdr_style, &payload);
         let body_len = built.frame_end - built.head_end;
@@ -180,6 +233,35 @@ non-trivial = pause inside the body and entitled bytes non-empty";
         };
         if wb() != 0 {
             return Outcome::fail("C19:send-read-past-head", "send() asked the transport for more bytes after the head was complete".to_string());
+        }
+        if case.via_write_to {
+            let log = net.lock().unwrap().dials[0].1.clone();
+            let mut w = NotingWriter { log, before_pause: vec![], after_pause: 0 };
+            let r = resp.write_to(&mut w);
+            ctx.label("consumed-with-write_to");
+            ctx.nontrivial = k > built.head_end && k < built.frame_end && a > 0;
+            if !payload.starts_with(&w.before_pause) {
+                return Outcome::fail(format!("C19:{fname}:wrong-bytes"), first_diff(&w.before_pause, &payload));
+            }
+            if w.before_pause.len() < a {
+                return Outcome::fail(
+                    format!("C19:{fname}:write_to-withheld"),
+                    format!("when the transport ran dry (pause at wire offset {k}) the writer had been given {} of the {a} bytes that had arrived ({} more were handed over afterwards); result {:?}", w.before_pause.len(), w.after_pause, r.as_ref().map_err(|e| e.to_string())),
+                );
+            }
+            match r {
+                Ok(n) => {
+                    if !frame_complete || n as usize != payload.len() || wb() != 0 {
+                        return Outcome::fail(format!("C19:{fname}:write_to-result"), format!("write_to returned Ok({n}) (payload {}, frame complete {frame_complete}, reads that reached the pause {})", payload.len(), wb()));
+                    }
+                }
+                Err(_) => {
+                    if frame_complete {
+                        return Outcome::fail(format!("C19:{fname}:eof-blocked"), format!("the complete frame had arrived but write_to failed / waited (would_block={})", wb()));
+                    }
+                }
+            }
+            return Outcome::Pass;
         }
         let mut delivered: Vec<u8> = vec![];
         let mut buf: Vec<u8> = vec![];
